@@ -177,6 +177,14 @@ def job_es(j):
     return n, r2
 
 
+def sample_sensor(fam, table, sid, own_hex):
+    t = [x for x in all_tables() if x.family == fam and x.name == table][0]
+    s = [x for x in t.sensors if x.id_ == sid][0]
+    tab = Table(fam, table, [s], 'modbus', start=s.offset, length=len(own_hex) // 2)
+    o = map_outcome(tab.response(bytes.fromhex(own_hex)), (s,))
+    return dict(table=f'{fam}.{table}', sensor=sid, own_registers=own_hex, outcome=str(o)[:120])
+
+
 def run(tier, seed, rep):
     tabs = all_tables()
     full = tier == 'thorough'
@@ -214,8 +222,9 @@ def run(tier, seed, rep):
                     'announced length 0..255 through the real API on the real transport; ET/DT/ES settings reads through '
                     'the device model; non-trivial = contents the reference decoder calls uninterpretable',
                table_fills=nt, es_length_cases=ne, settings_api_cases=ns, exhaustive=full,
-               samples=[dict(sensor='eco_mode_1', own='0000173bffecff80', note='day byte 0x80'),
-                        dict(sensor='ES runtime', announced_length=17)])
+               samples=[sample_sensor('ET', 'all_settings', 'eco_mode_1', '0000173bffecff80'),
+                        sample_sensor('ET', 'settings_arm_fw_19', 'eco_mode_1', '0000173bff7fffec00641000'),
+                        dict(api='ES.read_runtime_data', announced_length=17, violations=run_es_length('runtime', 17, 0xFF))])
     return dict(level='exploration', coverage=cov,
                 assumptions=['"uninterpretable" is decided by the reference decoder of mc/refdec.py (impossible date, '
                              'out-of-range hour/minute/power/SoC, unknown schedule type)'])
